@@ -40,6 +40,10 @@ CLAIMED = {
             "Union of fully symbolic sub-spaces: (A) EVERY triangle |x|<=1000 x each axis plane x every offset - all sign patterns incl. vertices exactly on the plane and edges in it - the returned segment equals the exact intersection of plane and triangle, a segment exists iff the plane separates the vertices, "
             "and the vector areas of the two opposite slices add up to the original with every piece on its side; (B) catalogue triangles x oblique rational unit normals x every offset; (C) catalogue tetrahedra x normals x every offset: the section is one closed loop.",
             TRUSTED + "unit plane normals; slices: vertices exactly on the plane or >= 1e-6 away; caps, cap volumes, watertightness of capped halves (shapely/earcut), mesh_multiplane and Trimesh.section path assembly (SVD, vertex merging) not claimed."),
+    "C12": ("other", "DESIGN.md#c12", "symbolic execution of ray_triangle.ray_triangle_id / ray_bounds, triangles.closest_point and points_to_barycentric on z3 reals with the r-tree replaced by its contract; definitional oracle (exact plane/line intersection, barycentric inclusion, existential closer-point query); replay on float code",
+            "Pruning soundness of ray_bounds for ALL rays, boxes and ray parameters; for catalogue triangles x catalogue directions x EVERY origin the reported hits equal the all-triangles definition at margin (hit / behind / miss, single and two triangles, first-hit = nearest); "
+            "closest_point for catalogue triangles x EVERY query point: the result is in the triangle and the solver finds no closer point of the triangle on any of the seven region paths; barycentric coordinates exact.",
+            TRUSTED + "r-tree contract stub; embree (compiled) and the 'both engines agree' clause not claimed; containment / signed distance / proximity.closest_point over meshes (kd-tree, r-tree candidates) not claimed in this revision; general-position margins 1e-3."),
 }
 
 NOT_APPLICABLE = {
